@@ -1,5 +1,5 @@
 """C05 - arbitrary input never corrupts memory, leaks, hangs or leaves partial results (partial)"""
-from props import comps, comps_iff, comps_json, comps_jsonnum, comps_robust, comps_types, comps_xmlbuf
+from props import comps, comps_iff, comps_json, comps_jsonnum, comps_robust, comps_types, comps_xmlbuf, comps_yangstr
 
 PID = "C05"
 LEVEL = "proof"
@@ -12,7 +12,7 @@ def components():
     # and list-style lexers whose models cannot read past the end of the input: agreement of the C code with them on
     # truncated / malformed inputs under ASan+UBSan is what ties the no-out-of-bounds theorems to the code
     return [comps_iff.IffCompile(), comps_iff.IffValue(), comps.Utf8(), comps.XmlVal(), comps_json.JsonStr(),
-            comps_types.Dec64Next(), comps_jsonnum.JsonNum(), comps_xmlbuf.XmlBuf()]
+            comps_types.Dec64Next(), comps_jsonnum.JsonNum(), comps_xmlbuf.XmlBuf(), comps_yangstr.YangStr()]
 
 
 def oracles_():
@@ -51,15 +51,25 @@ MANIFEST = {
             "no allocation; C05_xmlbuf_size_bounded: every block size and requested size is at most the input length + 152, so size_t "
             "cannot wrap; C05_xmlbuf_no_leak: the malloc/realloc/free calls of one call are balanced (error: everything allocated is freed exactly "
             "once; dynamic value: exactly the one block, not freed; value in place: no call); regression Example C05_xmlbuf_oneshot_growth_refuted: the one-shot growth of the seeded change C05-5 stores "
-            "200 bytes into a block of 153. The lexer models (UTF-8 decoder, XML value lexer, JSON string "
+            "200 bytes into a block of 153. C05_yangstr_no_underflow: for EVERY sequence of events of the quoted-string lexer of "
+            "parser_yang.c (read_qstring / buf_store_char / buf_add_char / end of get_argument; model of word_len, buf_len, trailing_ws, "
+            "block and current indentation, need_buf; characters of 1-4 bytes, blanks, tabs, line feeds, escapes, + concatenation of "
+            "double- and single-quoted parts, any ctx->indent) trailing_ws is at most word_len whenever it is subtracted, the "
+            "assert(need_buf) of the tab branch holds and every store (copy into the fresh buffer, each character after the single "
+            "16-byte growth step, leftover blanks of a tab, final NUL) lies inside the block of the moment; regression Example "
+            "C05_yangstr_noreset_refuted: without the reset of trailing_ws after a line break (seeded change C05-3) two blanks and two "
+            "line breaks subtract 2 from a word_len of 1; C05_yangstr_len_rfc: for EVERY double-quoted string without concatenation (given as its "
+            "lines, any column of the opening quote) the returned length is the number of bytes RFC 7950 6.1.3 keeps (indentation removed up to "
+            "the column after the quote with tabs of 8 columns and their leftover blanks, blanks/tabs before a line break removed, escapes kept), "
+            "against a specification on lines that knows nothing of the counters. The lexer models (UTF-8 decoder, XML value lexer, JSON string "
             "lexer, decimal64 parser) are structural recursions on the input list and cannot read past its end. Tie: extracted models "
-            "vs the C functions on generated, exhaustive-short, malformed and truncated inputs under ASan+UBSan (T2), crash-isolated; for xmlbuf the "
+            "vs the C functions on generated, exhaustive-short, malformed and truncated inputs under ASan+UBSan (T2), crash-isolated; for xmlbuf and yangstr the "
             "compared line is return code, dynamic flag, value length and the SEQUENCE of malloc/realloc/free requests of the real "
-            "lyxml_parse_value() (seen through macros around the allocator names in the white-box driver, xml.c unedited) on texts rendered "
+            "lyxml_parse_value() / get_argument() (seen through macros around the allocator names in the white-box drivers, sources unedited) on texts rendered "
             "from event lists; the stores themselves are not observable from outside, there ASan is the observer.",
     "note": "Partial by nature: memory safety of the remaining C code, allocator failure paths, leaks and stack depth are runtime "
             "behaviour no executable Gallina model exhibits. Modelled C (with proofs): lys_compile_iffeature, lysc_iffeature_value, "
-            "ly_getutf8, lyxml_parse_value (bytes: XmlText.v; buffer sizes: XmlBuf.v), lyxml_parse_value_use_buf, lyjson_string, lyplg_type_parse_dec64, lyjson_number, lyjson_exp_number (+ helpers). "
+            "ly_getutf8, lyxml_parse_value (bytes: XmlText.v; buffer sizes: XmlBuf.v), lyxml_parse_value_use_buf, read_qstring / buf_store_char / buf_add_char (sizes and counters: YangStr.v, length vs RFC 7950 6.1.3: YangStrLen.v; WHICH bytes are kept is slice ytext, C10/C15), lyjson_string, lyplg_type_parse_dec64, lyjson_number, lyjson_exp_number (+ helpers). "
             "NOT modelled, only SEARCHED by the oracle `robust` (impl/t_robust.c, structure-aware mutation of valid seeds under "
             "ASan+UBSan with a leak check per case, a CPU limit per case, dictionary reference counts, log-location stack, module list and "
             "a health workload compared with a fresh context): lys_parse_mem (YANG, YIN, pattern and if-feature inside modules), "
